@@ -38,6 +38,11 @@ def str_method(it, o, name):
                 'index', 'count', 'partition', 'rpartition', 'join', 'format', 'zfill', 'ljust', 'rjust', 'center',
                 'removeprefix', 'removesuffix', 'encode', 'hex', 'islower', 'isupper', 'capitalize'):
         def fn(it2, a, k):
+            ov = getattr(it2, 'str_method_overrides', {}).get(name)
+            if ov is not None:
+                r = ov(it2, o, a, k)
+                if r is not NotImplemented:
+                    return r
             if allconc(a) and name != 'join':
                 args = [unbox(x) for x in a]
                 try:
